@@ -52,6 +52,7 @@ def generate(rng, tier):
             cases.append({"regime": regime, "t": big, "sup": rng.choice([None, reg(12)]), "removed": reg(20),
                           "other": gen.big_timeline(rng, regime, 40)})
     cases += gen.decimal_copies(rng, cases, (1500 if tier == "thorough" else 150), lambda c: len(c['t']) < 50)
+    cases += gen.p3_copies(rng, cases, ['t', 'sup', 'removed', 'other'], (1000 if tier == "thorough" else 120), lambda c: len(c['t']) < 50)
     cases += gen.far_copies(rng, cases, ['t', 'sup', 'removed', 'other'], (400 if tier == "thorough" else 60))
     return {"cases": cases, "meta": {"exhaustive": True, "small_scope_cases": nex,
                                      "sizes": gen.stats(cases, {"n_t": lambda c: len(c["t"]),
